@@ -70,6 +70,13 @@ def instances(tier):
             out.append(('oneway3', NAMED['oneway3'], dict(fam=fam, T=2, ne=False, width=1, **MDI), ops_for(2), {}))
             out.append(('oneway3', NAMED['oneway3'], dict(fam=fam, T=3, ne=False, width=1, **MD), ops_for(3), {}))
         out.append(('oneway4', NAMED['oneway4'], dict(fam='simple', T=2, ne=True, **MD), ops_for(2), {}))
+        # histories: jump over a gap (continue_with_distance) then extension, and widening - at both levels
+        gap = {"A": ["B"], "B": [], "C": ["D"], "D": []}
+        for fam in ('simple', 'dist'):
+            h = [('match', 3), ('continue', 1, 1), ('extend', 3)]
+            out.append(('gap2', gap, dict(fam=fam, T=3, ne=False, **MD), h + [('loglevel', 'DEBUG'), ('new', {})] + h, {}))
+            h = [('match', 3), ('widen', 2)]
+            out.append(('line2', NAMED['line2'], dict(fam=fam, T=3, ne=False, width=1, **MD), h + [('loglevel', 'DEBUG'), ('new', {})] + h, {}))
         out.append(('tri', NAMED['k3'], dict(fam='simple_n', T=2, ne=True, **MD), ops_for(2), {}))
     else:
         gs = [x for x in library(3, named=('fork', 'oneway4')) if len([1 for u in x[1] for v in x[1][u]]) <= 4]
